@@ -1,4 +1,42 @@
-From Coq Require Import ZArith List Bool.
-From PW Require Import Model.Base Model.VerifyReg.
-Theorem C02_placeholder : True. Proof. exact I. Qed.
-Print Assumptions C02_placeholder.
+(* C02 — Registration soundness: RP expectations enforced for every attestation format. *)
+From Coq Require Import ZArith List Bool String.
+From PW Require Import Model.Base Model.Json Model.Cbor Model.AuthData Model.Oracles Model.ClientData Model.CredJson
+  Model.Formats Model.VerifyReg Generated.Constants Spec.RegSpec Proofs.RegProofs.
+Import ListNotations.
+Open Scope Z_scope.
+
+(* For every oracle behaviour, policy and credential record: acceptance is EQUIVALENT to RegAccepted, whose
+   conjuncts are the property's (id=b64url(rawId), type, webauthn.create, challenge, origin, rpIdHash, UP unless
+   waived, UV if required, attested credential data with non-empty id, key alg in the allowed list, statement
+   verified by the dispatch of its format) *)
+Theorem C02_reg_sound : forall O P c r, verify_reg_rec O P c = Ok r -> RegAccepted O P c r.
+Proof. exact verify_reg_rec_sound. Qed.
+Print Assumptions C02_reg_sound.
+
+Theorem C02_reg_characterised : forall O P c r, verify_reg_rec O P c = Ok r <-> RegAccepted O P c r.
+Proof. exact verify_reg_rec_iff. Qed.
+Print Assumptions C02_reg_characterised.
+
+(* the format is one of the seven known ones - whatever the statement contains *)
+Theorem C02_seven_formats : forall O P fmt st adr cdj ad att,
+  verify_statement O P fmt st adr cdj ad att = Ok tt -> exists name, In name seven_formats /\ fmt = s2l name.
+Proof. exact statement_fmt_known. Qed.
+Print Assumptions C02_seven_formats.
+
+Theorem C02_formats_are_the_enum : map snd att_format_enum = seven_formats.
+Proof. exact formats_are_spec. Qed.
+Print Assumptions C02_formats_are_the_enum.
+
+(* 'none' is accepted only with none of the seven statement members set *)
+Theorem C02_none_statement_empty : forall O P st adr cdj ad att,
+  verify_statement O P (s2l "none") st adr cdj ad att = Ok tt -> stmt_any_set st = false.
+Proof. exact statement_none_empty. Qed.
+Print Assumptions C02_none_statement_empty.
+
+Theorem C02_any_deviation_rejected : forall O P c, (forall r, ~ RegAccepted O P c r) ->
+  exists e, verify_reg_rec O P c = Err e.
+Proof.
+  intros O P c H. destruct (verify_reg_rec O P c) as [r|e] eqn:E; [|eauto].
+  exfalso. apply (H r). apply verify_reg_rec_sound. exact E.
+Qed.
+Print Assumptions C02_any_deviation_rejected.
